@@ -92,9 +92,12 @@ def main():
                     rec.ev('crash', prop=a.prop, call='restored-lattice', args=str(b), exc=type(exc).__name__,
                            msg=str(exc)[:300])
             nconc = len(rec._members) if rec._members is not None else 0
-            if b % 4 == 1 and 0 < nconc <= 150 and getattr(rec, 'ctx', None) is not None \
+            if (b // 5) % 4 == 1 and 0 < nconc <= 150 \
+                    and (table.tag[:2] != 'ex' or rec.counts.get('orphan_scenarios', 0) < 250) \
+                    and getattr(rec, 'ctx', None) is not None \
                     and fams & {'C05', 'C06', 'C07', 'C08', 'C09', 'C10', 'C18'}:
-                # the caller keeps only the concept objects: context and lattice are dropped and collected
+                # the caller keeps only the concept objects: context and lattice are dropped and collected (a full
+                # garbage collection per scenario: on the exhaustive small tables at most 250 per worker; spread over all shards)
                 rec_ctx.drive_orphans(rec, table, b, fams, rng)
             stats['behaviours'] += 1
             stats['exhaustive_tables'] += (table.tag[:2] == 'ex' and table.tag[2:3].isdigit())
